@@ -343,6 +343,27 @@ theorem restart_same_id_kept_example :
       = [[(0, 1, true)], [(0, 1, true)], [(0, 1, true), (1, 2, true)], [(0, 1, true), (1, 2, true)]] := by
   decide
 
+/-- **Known finding: a number that left the store before a restart is handed out again.** (C14, class `same-id-on-wire-…-number-of-a-bundle-delivered-before-the-restart`.) With the code as it is:
+b0 waits (#0), the destination of b1 connects, b1 (#1) is delivered and deleted, the peer leaves, b2 waits
+(#2), the node restarts, b3 is submitted and gets #1 — the number b1 left the node with — and when a peer
+appears, b3 leaves under the ID of b1. -/
+theorem wire_id_reused_after_restart_witness :
+    let c : Cfg := { self := 1, algo := .epidemic, mule := false, sensorNodes := [], sprayL := 3, bcast := ⟨999, 0⟩,
+                     seqFirst := true, skipStored := true, expiryNow := true, dtlsrFail := true, holdFix := true }
+    let env : Env := { sendOk := fun _ _ _ => true, prefer := fun _ _ => [], cand := fun _ _ => false }
+    let b0 : Bundle := { tag := 10, src := ⟨1, 0⟩, ts := 0, seq := 0, dst := ⟨9, 0⟩, prev := none,
+                         lifetime := 3600000, hop := none, age := some 0, delBlock := false, bsCopies := none }
+    let b1 : Bundle := { b0 with tag := 11, dst := ⟨2, 5⟩ }
+    let b2 : Bundle := { b0 with tag := 12 }
+    let b3 : Bundle := { b0 with tag := 13 }
+    let tr := trace env (init c 1000)
+      [.submit b0, .peerUp ⟨1, ⟨2, 0⟩⟩, .submit b1, .peerDown 1, .submit b2, .restart, .submit b3, .peerUp ⟨2, ⟨3, 0⟩⟩]
+    -- (tag, sequence number) of every transmission, in order
+    (tr.flatMap fun t => t.2.1.filterMap fun o => match o with
+      | .sent _ b _ => some (b.tag, b.seq) | _ => none)
+      = [(10, 0), (11, 1), (10, 0), (12, 2), (13, 1)] := by
+  decide
+
 /-- **Marked for retry while a transmission is in progress** (`pending_while_transmitting`, the crash-point
 part of the property): when `forward` starts to transmit a stored bundle, the stored record is marked
 pending, and it stays so whichever of the per-peer goroutines (`Send`; on failure `ReportFailure`) have
